@@ -21,6 +21,7 @@ func main() {
 	out := flag.String("out", "", "output directory (one sub-directory per package)")
 	spec := flag.String("spec", "", "re-emit this program or replay scenario instead of generating")
 	kind := flag.String("kind", "lens", "lens (C01-C03) | compose (C04)")
+	shrink := flag.String("shrink", "", "emit one package holding every smaller variant of this failing scenario")
 	flag.Parse()
 	if *out == "" {
 		fmt.Fprintln(os.Stderr, "need -out")
@@ -36,6 +37,28 @@ func main() {
 		}
 		b, _ := json.MarshalIndent(p, "", " ")
 		os.WriteFile(filepath.Join(dir, "program.json"), b, 0o644)
+	}
+	if *shrink != "" {
+		b, err := os.ReadFile(*shrink)
+		if err != nil {
+			panic(err)
+		}
+		p, err := shapegen.FromReplay(b)
+		if err != nil || len(p.Shapes) != 1 || len(p.Requests[0]) != 1 {
+			fmt.Println("0 candidates")
+			return
+		}
+		cands := shapegen.ShrinkCandidates(p.Shapes[0], p.Requests[0][0])
+		all := shapegen.Program{}
+		for _, c := range cands {
+			all.Shapes = append(all.Shapes, c.Shapes...)
+			all.Requests = append(all.Requests, c.Requests...)
+		}
+		if len(cands) > 0 {
+			write(0, all)
+		}
+		fmt.Printf("%d candidates\n", len(cands))
+		return
 	}
 	if *spec != "" {
 		b, err := os.ReadFile(*spec)
